@@ -459,4 +459,141 @@ theorem parse_print_aux3 (me : Char → Bool) : ∀ k e, sz3 e ≤ k → inFrag3
         (fun kv hkv => S kv.2 (by have := sz3K_mem (k := kv.1) (a := kv.2) hkv; omega) (inFrag3K_mem (k := kv.1) hf.2 hkv)) hf.1
 
 
+/-! ### enough fuel: the printed form is at least as long as the size measure -/
+
+theorem sz3L_le_tail (me : Char → Bool) : ∀ (es : List Expr), (∀ a ∈ es, sz3 a ≤ (printE me a).length) →
+    sz3L es ≤ (printEsTail me es).length
+  | [], _ => by simp [sz3L]
+  | e :: es, h => by
+    have h1 := h e (by simp)
+    have h2 := sz3L_le_tail me es (fun a ha => h a (by simp [ha]))
+    simp only [sz3L, printEsTail, List.length_cons, List.length_append]; omega
+
+theorem sz3L_le (me : Char → Bool) (es : List Expr) (h : ∀ a ∈ es, sz3 a ≤ (printE me a).length) :
+    sz3L es ≤ (printEs me es).length := by
+  cases es with
+  | nil => simp [sz3L]
+  | cons e es =>
+    have h1 := h e (by simp)
+    have h2 := sz3L_le_tail me es (fun a ha => h a (by simp [ha]))
+    simp only [sz3L, printEs, List.length_append]; omega
+
+theorem sz3K_le_tail (me : Char → Bool) : ∀ (kvs : List (String × Expr)), (∀ kv ∈ kvs, sz3 kv.2 ≤ (printE me kv.2).length) →
+    sz3K kvs ≤ (printKVsTail me kvs).length
+  | [], _ => by simp [sz3K]
+  | (k, e) :: kvs, h => by
+    have h1 := h (k, e) (by simp)
+    have h2 := sz3K_le_tail me kvs (fun a ha => h a (by simp [ha]))
+    simp only [sz3K, printKVsTail, List.length_cons, List.length_append]; simp only at h1; omega
+
+theorem sz3K_le (me : Char → Bool) (kvs : List (String × Expr)) (h : ∀ kv ∈ kvs, sz3 kv.2 ≤ (printE me kv.2).length) :
+    sz3K kvs ≤ (printKVs me kvs).length := by
+  cases kvs with
+  | nil => simp [sz3K]
+  | cons kv kvs =>
+    obtain ⟨k, e⟩ := kv
+    have h1 := h (k, e) (by simp)
+    have h2 := sz3K_le_tail me kvs (fun a ha => h a (by simp [ha]))
+    simp only [sz3K, printKVs, List.length_cons, List.length_append]; simp only at h1; omega
+
+theorem sz3_le_length (me : Char → Bool) : ∀ k e, sz3 e ≤ k → sz3 e ≤ (printE me e).length := by
+  intro k
+  induction k with
+  | zero => intro e hk; have := sz3_pos e; omega
+  | succ k ih =>
+    intro e hk
+    cases e
+    case lit p => cases p <;> simp [sz3, printE]; split <;> simp
+    case var v => simp [sz3, printE]
+    case slot s => simp [sz3, printE]
+    case unknown n ty => simp [sz3, printE]
+    case ite c t e' =>
+      simp only [sz3] at hk ⊢
+      have h1 := ih c (by omega)
+      have h2 := ih t (by omega)
+      have h3 := ih e' (by omega)
+      simp only [printE, List.length_cons, List.length_append]
+      omega
+    case and a b =>
+      simp only [sz3] at hk ⊢
+      have h1 := ih a (by omega)
+      have h2 := ih b (by omega)
+      have p1 := paren_length_ge (needsParens a && !isAnd a) (printE me a)
+      have p2 := paren_length_ge (needsParens b) (printE me b)
+      simp only [printE, List.length_cons, List.length_append]
+      omega
+    case or a b =>
+      simp only [sz3] at hk ⊢
+      have h1 := ih a (by omega)
+      have h2 := ih b (by omega)
+      have p1 := paren_length_ge (needsParens a && !isOr a) (printE me a)
+      have p2 := paren_length_ge (needsParens b) (printE me b)
+      simp only [printE, List.length_cons, List.length_append]
+      omega
+    case unaryApp op a =>
+      simp only [sz3] at hk ⊢
+      have h1 := ih a (by omega)
+      have p1 := paren_length_ge (needsParens a) (printE me a)
+      cases op <;> simp only [printE, List.length_cons, List.length_append, List.length_nil] <;> omega
+    case binaryApp op a b =>
+      simp only [sz3] at hk ⊢
+      have h1 := ih a (by omega)
+      have h2 := ih b (by omega)
+      have p2 := paren_length_ge (needsParens b) (printE me b)
+      have p1 := paren_length_ge (needsParens a) (printE me a)
+      have p1' := paren_length_ge (needsParens a && !isBin op a) (printE me a)
+      cases op <;> simp only [printE, List.length_cons, List.length_append, List.length_nil] <;> omega
+    case call fn args =>
+      simp only [sz3] at hk ⊢
+      have hl := sz3L_le me args (fun a ha => ih a (by have := sz3L_mem ha; omega))
+      cases hm : isExtMethod fn
+      · rw [printE_call_fun me fn args hm]
+        simp only [List.length_cons, List.length_append, List.length_nil]; omega
+      · cases args with
+        | nil => simp [printE, hm, sz3L]
+        | cons r rest =>
+          simp only [sz3L] at hk ⊢
+          have h1 := ih r (by omega)
+          have h2 := sz3L_le me rest (fun a ha => ih a (by have := sz3L_mem ha; omega))
+          have p1 := paren_length_ge (needsParens r) (printE me r)
+          simp only [printE, hm, if_true, List.length_cons, List.length_append, List.length_nil]; omega
+    case getAttr a x =>
+      simp only [sz3] at hk ⊢
+      have h1 := ih a (by omega)
+      have p1 := paren_length_ge (needsParens a) (printE me a)
+      simp only [printE, List.length_append]
+      split <;> simp only [List.length_cons, List.length_nil] <;> omega
+    case hasAttr a x =>
+      simp only [sz3] at hk ⊢
+      have h1 := ih a (by omega)
+      have p1 := paren_length_ge (needsParens a) (printE me a)
+      simp only [printE, List.length_cons, List.length_append, List.length_nil]; omega
+    case like a x =>
+      simp only [sz3] at hk ⊢
+      have h1 := ih a (by omega)
+      have p1 := paren_length_ge (needsParens a) (printE me a)
+      simp only [printE, List.length_cons, List.length_append, List.length_nil]; omega
+    case is a x =>
+      simp only [sz3] at hk ⊢
+      have h1 := ih a (by omega)
+      have p1 := paren_length_ge (needsParens a) (printE me a)
+      simp only [printE, List.length_cons, List.length_append, List.length_nil]; omega
+    case set es =>
+      simp only [sz3] at hk ⊢
+      have hl := sz3L_le me es (fun a ha => ih a (by have := sz3L_mem ha; omega))
+      simp only [printE, List.length_cons, List.length_append, List.length_nil]; omega
+    case record kvs =>
+      simp only [sz3] at hk ⊢
+      have hl := sz3K_le me kvs (fun kv hkv => ih kv.2 (by have := sz3K_mem (k := kv.1) (a := kv.2) hkv; omega))
+      simp only [printE, List.length_cons, List.length_append, List.length_nil]; omega
+
+/-- `Parse.expr ∘ Print.expr = some` on the fragment -/
+theorem parse_print_frag3 (me : Char → Bool) (e : Expr) (h : inFrag3 e = true) : Parse.expr (Print.expr me e) = some e := by
+  unfold Parse.expr Print.expr
+  obtain ⟨s, h1, h2⟩ := (parse_print_aux3 me (sz3 e) e (Nat.le_refl _) h (printE me e).length
+    (sz3_le_length me _ e (Nat.le_refl _))).top [] rfl
+  simp only [List.append_nil] at h1
+  rw [h1]
+  exact h2
+
 end Cedar.Syntax
